@@ -66,6 +66,7 @@ fn main() {
         "C09" => mcw::steps::c09(&mut ctx),
         "C10" => mcw::steps::c10(&mut ctx),
         "C12" | "C13" => mcw::c12::run(&mut ctx),
+        "C14" => mcw::c14::run(&mut ctx),
         "C16" => mcw::c16::run(&mut ctx),
         "C18" => mcw::c18::run(&mut ctx),
         "C19" => mcw::c19::run(&mut ctx),
